@@ -1,8 +1,11 @@
 #!/bin/bash
-# run every kept seeded change against the quick check of its property; results -> /tmp/seeded/results.txt
+# run every kept seeded change against the quick check of its property (or of the property named in
+# /verif/seeded/<id>/check_with, when the change is caught by a related property's check by design);
+# results -> /tmp/seeded/results.txt
 out=/tmp/seeded/results.txt; : > $out
 for d in /verif/seeded/*/; do
   id=$(basename $d); prop=${id:0:3}
+  [ -f $d/check_with ] && prop=$(cat $d/check_with)
   r=$(/verif/bin/try_seeded.sh $id $prop quick)
   echo "$r" | tee -a $out
 done
